@@ -27,7 +27,7 @@ REGISTRY = {
     'C08': ('harness.props.mempool', 'check'),
     'C09': ('harness.props.mempool', 'check'),
     'C10': ('harness.props.client', 'check'),
-    'C11': ('harness.props.client', 'check'),
+    'C11': ('harness.props.proofs', 'check'),
     'C12': ('harness.props.merkle', 'check'),
     'C13': ('harness.props.blockreader', 'check'),
     'C14': ('harness.props.compaction', 'check'),
